@@ -137,12 +137,47 @@ impl Item { fn with_note(self, _m: String) -> Item { self } }
 pub fn setup(r: &mut Rng, thorough: bool, scheme: SchemeType) -> Option<Setup> {
     let lg = r.range(2, if thorough { 6 } else { 5 }) as usize; let n = 1usize << lg;
     let k = r.range(2, 4) as usize;
-    let bits: Vec<usize> = (0..k).map(|_| *r.pick(&[40usize, 50, 55, 59, 60])).collect();
+    let mut bits: Vec<usize> = (0..k).map(|_| *r.pick(&[40usize, 50, 55, 59, 60])).collect();
+    // every fourth parameter set has a coefficient prime SMALLER than the plain modulus (no fast plain lift: the multi-word
+    // lift paths of multiply_plain / add_plain / encryption are taken)
+    let small_prime = r.chance(2, 5);
+    if small_prime { let pos = r.below(bits.len() as u64 - 1) as usize; bits[pos] = *r.pick(&[20usize, 22, 24]); bits.push(60); }
     let qs = pick_primes(r, n, &bits)?;
     let tk = r.below(3);
-    let t = match tk { 0 => pick_plain(r, n, 0, &qs), 1 => 1u64 << r.range(2, 10), _ => 3 + 2 * r.below(30) };
+    let t = if small_prime { let m = *qs.iter().min().unwrap(); match tk { 0 => (m | 1) + 2 * (1 + r.below(1 << 22)), 1 => 1u64 << r.range(25, 27), _ => (3 * m) | 1 } }
+            else { match tk { 0 => pick_plain(r, n, 0, &qs), 1 => 1u64 << r.range(2, 10), _ => 3 + 2 * r.below(30) } };
     if qs.iter().any(|&q| gcd(q, t) != 1) { return None; }
     make(scheme, n, &qs, t, true, None)
+}
+
+/// plaintext-operand corner cases on a fresh ciphertext: monomials / constants with negative (upper-half) coefficients of large and
+/// small magnitude, positive ones, two-term and full plaintexts — through multiply_plain (coefficient-form and NTT-form plaintext),
+/// add_plain and sub_plain.  These select the special-cased paths of `multiply_plain_normal` and the plaintext lifts.
+fn directed_plain_cases(out: &mut Out, s: &Setup, r: &mut Rng) {
+    let (n, t) = (s.n, s.t); let ev = &s.evaluator;
+    let msg = rand_msg(r, n, t);
+    let ct = s.encryptor.encrypt_new(&plain_of(&msg));
+    let pred = (lib_budget(s, &ct) - (t as f64).log2() - (n as f64).log2() - 6.0).floor() as i64;
+    let mono = |pos: usize, c: u64| { let mut v = vec![0u64; n]; v[pos] = c; v };
+    let plains: Vec<(&str, Vec<u64>)> = vec![
+        ("mono-neg-big", mono(r.below(n as u64) as usize, t / 2 + 1 + r.below((t / 4).max(1)))),
+        ("mono-neg-1", mono(n - 1, t - 1)), ("mono-neg-small", mono(3 % n, t - 3)), ("mono-half", mono(1, (t + 1) / 2)),
+        ("mono-pos", mono(r.below(n as u64) as usize, 1 + r.below((t / 2).max(1)))), ("const-neg", mono(0, t - 1 - r.below((t / 3).max(1)))),
+        ("two-term", { let mut v = mono(0, 1); v[n / 2] = t - 1 - r.below((t / 3).max(1)); v }), ("full", rand_msg(r, n, t)),
+    ];
+    for (nm, pm) in &plains {
+        if pm.iter().all(|&x| x == 0) { continue; }
+        let p = plain_of(pm);
+        let native_ntt = s.scheme == SchemeType::BGV;
+        let view = |c: &Ciphertext| if s.scheme == SchemeType::BFV && c.is_ntt_form() { ev.transform_from_ntt_new(c) } else { c.clone() };
+        let mut emit = |op: &str, res: Ciphertext, want: Vec<u64>| { let v = view(&res); out.case(&format!("prog {} {} {}", s.ct_case(&v), pred, fl(&trim(&want))), &format!("plain-{}-{}", op, nm), || s.dec_str(&v)); };
+        emit("multiply_plain", ev.multiply_plain_new(&ct, &p), shadow_mul(&msg, pm, t));
+        { let mut pn = p.clone(); ev.transform_plain_to_ntt_inplace(&mut pn, ct.parms_id());
+          let ctn = if native_ntt { ct.clone() } else { ev.transform_to_ntt_new(&ct) };
+          emit("multiply_plain_ntt", ev.multiply_plain_new(&ctn, &pn), shadow_mul(&msg, pm, t)); }
+        emit("add_plain", ev.add_plain_new(&ct, &p), shadow_add(&msg, pm, t));
+        emit("sub_plain", ev.sub_plain_new(&ct, &p), shadow_sub(&msg, pm, t));
+    }
 }
 
 pub fn run(out: &mut Out, thorough: bool, seed: u64, _extra: &[String]) {
@@ -161,6 +196,7 @@ pub fn run(out: &mut Out, thorough: bool, seed: u64, _extra: &[String]) {
     for pi in 0..programs {
         let scheme = if pi % 2 == 0 { SchemeType::BFV } else { SchemeType::BGV };
         let s = match setup(&mut r, thorough, scheme) { Some(s) => s, None => continue };
+        directed_plain_cases(out, &s, &mut r);
         let mut prog = Prog::new(&s, &mut r, 3);
         let mut done = 0; let mut tries = 0;
         while done < steps && tries < steps * 6 {
